@@ -58,12 +58,36 @@ pub enum Data {
     /// incompressible
     Rand { n: usize, seed: u64 },
     Hex { hex: String },
+    /// adversarial "block-lookalike" content: PRNG filler in which a well-formed
+    /// sequence of file-layer blocks (FileStart "intruder", content, EndOfFile with a
+    /// correct hash, EndOfArchiveData) is placed at offsets first + k*period
+    Look { n: usize, first: usize, period: usize, seed: u64 },
+}
+
+/// The block sequence an attacker-controlled file content carries
+pub fn lookalike_blocks() -> Vec<u8> {
+    use sha2::Digest;
+    let mut v = Vec::new();
+    let id: u64 = 0x77;
+    v.push(0);
+    v.extend_from_slice(&id.to_le_bytes());
+    v.extend_from_slice(&8u64.to_le_bytes());
+    v.extend_from_slice(b"intruder");
+    v.push(1);
+    v.extend_from_slice(&id.to_le_bytes());
+    v.extend_from_slice(&5u64.to_le_bytes());
+    v.extend_from_slice(b"EVIL!");
+    v.push(0xFF);
+    v.extend_from_slice(&id.to_le_bytes());
+    v.extend_from_slice(&sha2::Sha256::digest(b"EVIL!"));
+    v.push(0xFE);
+    v
 }
 
 impl Data {
     pub fn len(&self) -> usize {
         match self {
-            Data::Zeros { n } | Data::Period { n, .. } | Data::Text { n, .. } | Data::Rand { n, .. } => *n,
+            Data::Zeros { n } | Data::Period { n, .. } | Data::Text { n, .. } | Data::Rand { n, .. } | Data::Look { n, .. } => *n,
             Data::Hex { hex } => hex.len() / 2,
         }
     }
@@ -83,6 +107,18 @@ impl Data {
             }
             Data::Rand { n, seed } => Rng::new(*seed).bytes(*n),
             Data::Hex { hex } => hex::decode(hex).unwrap_or_default(),
+            Data::Look { n, first, period, seed } => {
+                let mut v = Rng::new(*seed).bytes(*n);
+                // filler must not itself look like a block start at the planted offsets' neighbourhood: keep it as is
+                let look = lookalike_blocks();
+                let mut at = *first;
+                while at < *n {
+                    let e = (at + look.len()).min(*n);
+                    v[at..e].copy_from_slice(&look[..e - at]);
+                    at += (*period).max(1);
+                }
+                v
+            }
         }
     }
     pub fn class(&self) -> &'static str {
@@ -92,6 +128,7 @@ impl Data {
             Data::Text { .. } => "text",
             Data::Rand { .. } => "rand",
             Data::Hex { .. } => "hex",
+            Data::Look { .. } => "lookalike",
         }
     }
     pub fn with_len(&self, n: usize) -> Data {
@@ -101,6 +138,7 @@ impl Data {
             Data::Text { seed, .. } => Data::Text { n, seed: *seed },
             Data::Rand { seed, .. } => Data::Rand { n, seed: *seed },
             Data::Hex { hex } => Data::Hex { hex: hex[..(2 * n).min(hex.len())].to_string() },
+            Data::Look { first, period, seed, .. } => Data::Look { n, first: *first, period: *period, seed: *seed },
         }
     }
     pub fn make(rng: &mut Rng, n: usize) -> Data {
